@@ -90,6 +90,7 @@ var checks = map[string][]HarnessSpec{
 	"C14": {
 		{Name: "verifC14Names", Pkg: ".", Labels: []string{"names"}},
 		{Name: "verifC14Literals", Pkg: ".", Labels: []string{"literals"}},
+		{Name: "verifC14LongNames", Pkg: ".", Labels: []string{"long-refused", "long-ok"}, Quick: TierOpts{LoopLimit: 600}, Thorough: TierOpts{LoopLimit: 600}},
 		{Name: "verifC14Zone", Pkg: ".", Labels: []string{"resolved", "error"}},
 		{Name: "verifC14Chain", Pkg: ".", Labels: []string{"chain"}},
 	},
